@@ -32,6 +32,9 @@ type recorder struct{ evs []event }
 
 var seqCounter int64
 
+// hungOnce: a scenario hung; later cases are not run (each would cost the full watchdog time)
+var hungOnce bool // hungOnce
+
 func (r *recorder) log(format string, a ...any) {
 	r.evs = append(r.evs, event{atomic.AddInt64(&seqCounter, 1), fmt.Sprintf(format, a...)})
 }
@@ -68,6 +71,9 @@ func gen(r *vu.Rng, i int) []string {
 
 // runGate runs G goroutines × K iterations on one gate.
 func runGate(G, K int, init bool, s uint64, stats map[string]int) ([]event, [][2]string) {
+	if hungOnce {
+		return nil, nil
+	}
 	g := gate.New(init)
 	var inCS int32
 	cond := init // written only inside the critical section
@@ -200,6 +206,11 @@ func exec(ops []string, o *vu.Out) {
 		}
 		stats := map[string]int{}
 		evs, fails := runGate(G, K, init, s, stats)
+		for _, f := range fails {
+			if f[0] == "hang" {
+				hungOnce = true
+			}
+		}
 		o.Op(op, "ok")
 		for _, e := range evs {
 			o.Op(e.s, "ok")
